@@ -406,6 +406,7 @@ typedef struct {
 	uint64_t tx_key, rx_key;
 	size_t tx_done, rx_done;
 	int ever_sendapp, ever_recvapp;
+	const unsigned char *in_hi, *out_lo;   /* engine-split single buffer: highest end of an input region / lowest start of an output region seen */
 	size_t bytes_out, bytes_in;        /* record bytes moved */
 	int rx_bad;                        /* stream oracle failure seen */
 } tp_ep;
@@ -463,6 +464,7 @@ tp_ep_start(tp_ep *ep, const tp_cfg *cfg)
 	ep->closed_seen = 0;
 	ep->tx_done = ep->rx_done = 0;
 	ep->ever_sendapp = ep->ever_recvapp = 0;
+	ep->in_hi = ep->out_lo = NULL;
 	ep->bytes_in = ep->bytes_out = 0;
 	ep->rx_bad = 0;
 	if (!reuse) {
@@ -647,6 +649,15 @@ tp_check(tp_ep *ep, const char *call)
 		if (p3) TP_C06(tp_inside(p3, l3, ob, ol), "sendrec-outside-buffer");
 		if (p2) TP_C06(tp_inside(p2, l2, ib, il), "recvapp-outside-buffer");
 		if (p4) TP_C06(tp_inside(p4, l4, ib, il), "recvrec-outside-buffer");
+		if (ep->cfg.layout == TP_LAYOUT_SPLIT1) {
+			/* the engine splits the single buffer once, at set_buffer time: input regions and output regions
+			   must stay on their own side of that (unknown) point for the whole life of the context */
+			if (p2 && (ep->in_hi == NULL || p2 + l2 > ep->in_hi)) ep->in_hi = p2 + l2;
+			if (p4 && (ep->in_hi == NULL || p4 + l4 > ep->in_hi)) ep->in_hi = p4 + l4;
+			if (p1 && (ep->out_lo == NULL || p1 < ep->out_lo)) ep->out_lo = p1;
+			if (p3 && (ep->out_lo == NULL || p3 < ep->out_lo)) ep->out_lo = p3;
+			TP_C06(ep->in_hi == NULL || ep->out_lo == NULL || ep->in_hi <= ep->out_lo, "input-region-reaches-into-output-part");
+		}
 	}
 #undef TP_C06
 	if (st & BR_SSL_SENDAPP) ep->ever_sendapp = 1;
@@ -815,10 +826,10 @@ tp_snap_take(tp_snap *s, const tp_ep *ep)
 {
 	size_t cl = ep->cfg.role == 0 ? sizeof(br_ssl_client_context) : sizeof(br_ssl_server_context);
 	void *c = ep->cfg.role == 0 ? (void *)ep->cc : (void *)ep->sc;
-	s->ctx = vf_dup(c, cl);
+	s->ctx = vf_raw_dup(c, cl);
 	s->buf = vf_dup(ep->buf, ep->buf_len);
 	s->buf_out = ep->buf_out ? vf_dup(ep->buf_out, ep->buf_out_len) : NULL;
-	s->xc = vf_dup(ep->xc, sizeof *ep->xc);
+	s->xc = vf_raw_dup(ep->xc, sizeof *ep->xc);
 	s->xw = vf_dup(ep->xw, sizeof *ep->xw);
 	s->ep = *ep;
 }
@@ -831,10 +842,10 @@ tp_snap_restore(const tp_snap *s, tp_ep *ep)
 	*ep = s->ep;
 	cl = ep->cfg.role == 0 ? sizeof(br_ssl_client_context) : sizeof(br_ssl_server_context);
 	c = ep->cfg.role == 0 ? (void *)ep->cc : (void *)ep->sc;
-	memcpy(c, s->ctx, cl);
+	vf_raw_copy(c, s->ctx, cl);
 	memcpy(ep->buf, s->buf, ep->buf_len);
 	if (ep->buf_out) memcpy(ep->buf_out, s->buf_out, ep->buf_out_len);
-	memcpy(ep->xc, s->xc, sizeof *ep->xc);
+	vf_raw_copy(ep->xc, s->xc, sizeof *ep->xc);
 	memcpy(ep->xw, s->xw, sizeof *ep->xw);
 }
 
